@@ -84,7 +84,7 @@ def sensitivity(a):
                 print('selftest-sensitivity %s: patch does not apply: %s' % (sid, ap.stderr[-200:]))
                 bad += 1
                 continue
-            prop = meta['breaks_property']
+            prop = meta.get('check_with', meta['breaks_property'])
             env = dict(os.environ, VERIF_REPO=wt)
             t0 = time.time()
             p = subprocess.run([sys.executable, CHECK, prop, '--tier', 'quick', '--no-evidence', '--no-minimise'], env=env, capture_output=True, text=True, cwd=VERIF_DIR)
